@@ -190,6 +190,9 @@ EXPRS2 = {
     "(x>1)|(y>1)": lambda d: (d.x > 1) | (d.y > 1),
     "(x>1)^(y>1)": lambda d: (d.x > 1) ^ (d.y > 1),
     "~(x>1)": lambda d: ~(d.x > 1),
+    "True&(x>1)": lambda d: True & (d.x > 1),
+    "False|(x>1)": lambda d: False | (d.x > 1),
+    "True^(x>1)": lambda d: True ^ (d.x > 1),
     "[(x>1)&(k==a)]": lambda d: d[(d.x > 1) & (d.k == "a")],
     "setitem(z=x+1)": _setitem,
     "setitem(z=5)": _setitem_scalar,
